@@ -444,6 +444,11 @@ def gen_outline(rng, lib, sid, opts):
         examples = []           # an outline without any Examples section
     elif not opts.get("allow_empty_outline") and not any(ex["rows"] for ex in examples):
         examples[0]["rows"] = [["v%d" % rng.randint(0, 9) for _ in examples[0]["headings"]]]
+    if opts.get("allow_no_table_examples") and rng.random() < 0.08:
+        # an Examples block that is the keyword line only, in front of the real ones (it still counts
+        # in the numbering of the blocks)
+        examples.insert(0, {"name": "bare", "tags": [], "headings": list(cols), "rows": [],
+                            "kwd": "Examples", "no_table": True})
     tags = gen_tags(rng, opts["tag_pool"], opts["p_tag"])
     if rng.random() < 0.2:
         tags.append("p_<%s>" % cols[0])
@@ -452,7 +457,10 @@ def gen_outline(rng, lib, sid, opts):
             ci = ex["headings"].index(cols[0])
             for row in ex["rows"]:
                 row[ci] = "t%d" % rng.randint(0, 9)
-                if rng.random() < 0.3:
+                if rng.random() < 0.1 and "p_t3" not in tags:
+                    tags.insert(len(tags) - 1, "p_t3")     # a literal tag (in front) that the parametrised one also renders to for some row
+                    row[ci] = "t3"
+                elif rng.random() < 0.3:
                     # cells that are NOT tag-safe: the documented translation applies to the rendered tag
                     # (alnum and ._-=:,;() kept, blanks become '_', everything else is dropped)
                     row[ci] = rng.choice(["a/b%d", "x?y%d", "q[%d]", "w w%d", "c^%d", "m@n%d", u"ü-%d", "k\\%d"]) % rng.randint(0, 9)
@@ -541,6 +549,13 @@ def gen_feature(rng, lib, fi, opts):
             "background": gen_background(rng, lib, opts),
             "items": gen_items(rng, lib, fid, rng.randint(1, opts["max_items"]), opts, True)}
     and_first_steps(rng, lib, feat, opts)
+    # a feature / rule tag that merely LOOKS parametrised (both angle brackets): it is an ordinary
+    # inherited tag for everything below, outline rows included
+    if rng.random() < 0.04:
+        feat["tags"].append("team<core>")
+    for it in feat["items"]:
+        if it["kind"] == "rule" and rng.random() < 0.04:
+            it["tags"].append("team<core>")
     return feat
 
 
@@ -555,6 +570,20 @@ def and_first_steps(rng, lib, feat, opts):
         for it in items:
             if it["kind"] == "rule":
                 visit(it["items"], last_type(it.get("background")) or inherited)
+            elif it["steps"] and rng.random() < 0.04 and it["steps"][0].get("doc") is None and \
+                    not it["steps"][0].get("table") and "<" not in it["steps"][0]["text"]:
+                # a scenario that starts with '*': there is nothing in front of it in the scenario, its
+                # type is the default (given), whatever the backgrounds end with
+                cands = [d for d in lib["defs"] if d["type"] in ("given", "step")]
+                if cands:
+                    d = rng.choice(cands)
+                    st = it["steps"][0]
+                    st.update({"kw": "*", "type": "given", "text": instantiate(rng, d), "def": d["id"]})
+                    for nxt in it["steps"][1:]:
+                        if nxt["kw"] in ("And", "But", "*"):
+                            nxt["kw"] = STEP_KW[nxt["type"]]
+                        else:
+                            break
             elif inherited and it["steps"] and rng.random() < 0.12:
                 cands = [d for d in lib["defs"] if d["type"] in (inherited, "step")]
                 st = it["steps"][0]
@@ -658,6 +687,8 @@ def render_feature(feat, rng, p_noise=0.15):
                     tagline(ex["tags"], indent + "  ")
                     lines.append(indent + "  %s: %s" % (ex["kwd"], ex["name"]))
                     lm["%s.E%d" % (it["id"], e)] = len(lines)
+                    if ex.get("no_table"):
+                        continue            # the keyword line only: an Examples block without a table
                     rl = render_table(lines, indent + "    ", ex["headings"], ex["rows"], rng, p_noise * 0.7)
                     for r, ln in enumerate(rl):
                         lm["%s.E%d.R%d" % (it["id"], e, r)] = ln
@@ -814,7 +845,7 @@ def gen_outcome(rng, dims):
         return {"kind": "ok"}
     k = rng.choice(kinds)
     o = {"kind": k}
-    if k in ("assert", "exc") and "skip" in kinds and rng.random() < 0.15:
+    if k in ("assert", "exc") and "skip" in kinds and not dims.get("continue_after_failed") and rng.random() < 0.15:
         o["pre_skip"] = True        # the step first calls scenario.skip(), then fails all the same
     if k == "assert":
         o["msg"] = gen_message(rng, dims["hostile"]) if rng.random() < 0.8 else None
@@ -939,6 +970,10 @@ def gen_actions(rng, world, dims, where):
         if rng.random() < 0.3:
             acts.append({"a": "log", "logger": rng.choice(["", "foo", "foo.bar", "baz", "foobar", "bazaar"]),
                          "level": rng.choice(["DEBUG", "INFO", "WARNING", "ERROR"])})
+        if where == "step" and dims.get("log_level_changes") and rng.random() < 0.05:
+            acts.append({"a": "root_level", "level": rng.choice([10, 30, 40])})     # a STEP changes the root logger's level
+        if where == "step" and rng.random() < dims.get("p_hijack", 0.0):
+            acts.append({"a": "hijack_stream", "stream": rng.choice(["stdout", "stderr"])})
         if where == "step" and rng.random() < dims.get("p_log_burst", 0.0):
             acts.append({"a": "log_burst", "n": 1005})
     if dims.get("midrun_skips") and where in ("step", "after_scenario") and rng.random() < 0.06:
